@@ -114,11 +114,11 @@ Local Ltac na :=
     | apply NA_app | apply NA_cons; [discriminate|]
     | apply NA_map; discriminate ].
 
-(* every operation other than to_vec: no allocation event *)
+(* every operation other than to_vec and boxed: no allocation event *)
 Lemma spec_no_alloc N l o nid r :
-  spec_step N l o nid = SRet r -> o <> OToVec -> NA (sr_evs r).
+  spec_step N l o nid = SRet r -> o <> OToVec -> o <> OBoxed -> NA (sr_evs r).
 Proof.
-  intros H Hne. destruct o; try congruence; clear Hne; cbn [spec_step] in H.
+  intros H Hne Hnb. destruct o; try congruence; clear Hne Hnb; cbn [spec_step] in H.
   all: try (inversion H; subst; cbn [sr_evs]; na; fail).
   all: try (match type of H with
             | context [spec_push_back ?a ?b ?c] => destruct (spec_push_back a b c)
@@ -168,13 +168,34 @@ Proof.
   - (* write *)
     pose proof (NA_spec_extend_from_slice N l src nid) as HN.
     destruct (spec_extend_from_slice N l src nid) as [[? ?] ?]. inversion H; subst. exact HN.
+  - (* iter_default *)
+    destruct (spec_script l 0 0 script) as [[rs l0] ?]. inversion H; subst. na.
+  - (* iter_mut_default *)
+    destruct (spec_script l 0 0 script) as [[rs l0] ?]. inversion H; subst. na.
+  - (* ref_into_iter *)
+    destruct (spec_script l 0 (length l) script) as [[rs l0] ?]. inversion H; subst. na.
+  - (* iter_debug *)
+    destruct (spec_bounds (zlen l) sb eb) as [[a b]|]; [|discriminate].
+    destruct (spec_script l (nat_of a) (nat_of b) pre) as [[rs l0] [lo hi]].
+    inversion H; subst. cbn [sr_evs]. na.
+  - (* iter_mut_debug *)
+    destruct (spec_bounds (zlen l) sb eb) as [[a b]|]; [|discriminate].
+    destruct (spec_script l (nat_of a) (nat_of b) pre) as [[rs l0] [lo hi]].
+    inversion H; subst. cbn [sr_evs]. na.
+  - (* drain_debug *)
+    destruct (spec_bounds (zlen l) sb eb) as [[a b]|]; [|discriminate].
+    destruct (spec_script l (nat_of a) (nat_of b) (map plain_step pre)) as [[rs l0] [lo hi]].
+    inversion H; subst; cbn [sr_evs]; na.
+  - (* into_iter_debug *)
+    destruct (spec_script l 0 (length l) (map plain_step pre)) as [[rs l0] [lo hi]].
+    inversion H; subst. cbn [sr_evs]. na.
 Qed.
 
 Lemma spec_alloc_only_to_vec N l o nid r :
-  spec_step N l o nid = SRet r -> In EvAlloc (sr_evs r) -> o = OToVec.
+  spec_step N l o nid = SRet r -> In EvAlloc (sr_evs r) -> o = OToVec \/ o = OBoxed.
 Proof.
-  intros H Hin. destruct o; try reflexivity; exfalso;
-    (eapply spec_no_alloc; [exact H|discriminate|exact Hin]).
+  intros H Hin. destruct o; try (left; reflexivity); try (right; reflexivity); exfalso;
+    (eapply spec_no_alloc; [exact H|discriminate|discriminate|exact Hin]).
 Qed.
 
 Lemma count_alloc_NA evs : NA evs -> count_occ event_eq_dec evs EvAlloc = 0%nat.
@@ -191,6 +212,18 @@ Proof.
   cbn [count_occ app]. destruct (event_eq_dec EvAlloc EvAlloc); [reflexivity|congruence].
 Qed.
 
+(* boxed allocates exactly once, whatever the buffer holds, before the old
+   contents are destroyed *)
+Lemma spec_boxed_allocs N l nid r :
+  spec_step N l OBoxed nid = SRet r ->
+  sr_evs r = EvAlloc :: drops l /\ count_occ event_eq_dec (sr_evs r) EvAlloc = 1%nat.
+Proof.
+  intros H. cbn [spec_step] in H. inversion H; subst; clear H. cbn [sr_evs].
+  split; [reflexivity|]. cbn [count_occ].
+  destruct (event_eq_dec EvAlloc EvAlloc); [|congruence].
+  rewrite (count_alloc_NA (drops l)) by apply NA_drops. reflexivity.
+Qed.
+
 (* ... and the allocation, if any, comes first, before any clone *)
 Lemma spec_to_vec_evs N l nid r :
   spec_step N l OToVec nid = SRet r ->
@@ -198,17 +231,30 @@ Lemma spec_to_vec_evs N l nid r :
 Proof. intros H. cbn [spec_step] in H. inversion H; reflexivity. Qed.
 
 (* the model: a call that returns appends events to the log; none of them is
-   an allocation unless the call is to_vec; the capacity never changes *)
+   an allocation unless the call is to_vec or boxed; the capacity never changes *)
 Theorem exec_allocs o s w v s' w' :
   WF s -> fault w = None -> op_ok s o ->
   exec o s w = (Ok v, s', w') ->
-  exists evs, log w' = log w ++ evs /\ (o <> OToVec -> ~ In EvAlloc evs) /\ cap s' = cap s.
+  exists evs, log w' = log w ++ evs /\
+    (o <> OToVec -> o <> OBoxed -> ~ In EvAlloc evs) /\ cap s' = cap s.
 Proof.
   intros HW Hf Hok He.
   destruct (exec_meets_spec o s w v s' w' HW Hf Hok He)
     as (r & Hs & _ & _ & Hl & _ & _ & Hc).
   exists (sr_evs r). split; [exact Hl|]. split; [|exact Hc].
-  intros Hne. exact (spec_no_alloc _ _ _ _ _ Hs Hne).
+  intros Hne Hnb. exact (spec_no_alloc _ _ _ _ _ Hs Hne Hnb).
+Qed.
+
+Theorem exec_boxed_allocs s w v s' w' :
+  WF s -> fault w = None ->
+  exec OBoxed s w = (Ok v, s', w') ->
+  exists evs, log w' = log w ++ evs /\
+    evs = EvAlloc :: drops (abs s) /\ count_occ event_eq_dec evs EvAlloc = 1%nat.
+Proof.
+  intros HW Hf He.
+  destruct (exec_meets_spec OBoxed s w v s' w' HW Hf I He)
+    as (r & Hs & _ & _ & Hl & _ & _ & Hc).
+  exists (sr_evs r). split; [exact Hl|]. exact (spec_boxed_allocs _ _ _ _ Hs).
 Qed.
 
 Theorem exec_to_vec_allocs s w v s' w' :
